@@ -152,9 +152,9 @@ theorem accepts_step (M : Img) (q c : Nat) (w : List Nat) (hq : q < M.n) :
 /-! ### `range`: every text that starts with `r` -/
 
 def cR : Nat := charClass 'r'
-def mRange : Img := ⟨2, fun q c => if q = 0 then (if c = cR then 1 else 2) else q, fun q => q == 1⟩
+def mRangeB (cR : Nat) : Img := ⟨2, fun q c => if q = 0 then (if c = cR then 1 else 2) else q, fun q => q == 1⟩
+def mRange : Img := mRangeB cR
 
-set_option profiler true in
 theorem range_cert : certOK mRange 0 (computeInv mRange) = true := by decide +kernel
 
 theorem range_accepts (r : Range) : mRange.accepts 0 (classes (rangeSer r)) = true := by
@@ -168,7 +168,7 @@ theorem range_accepts (r : Range) : mRange.accepts 0 (classes (rangeSer r)) = tr
     · exact ⟨_, by rw [List.append_assoc, List.append_assoc, List.append_assoc, List.append_assoc, List.append_assoc, hp]⟩
   obtain ⟨rest, e⟩ := h
   rw [e, classes_cons, accepts_step _ _ _ _ (by decide)]
-  have : mRange.step 0 (charClass 'r') = 1 := by simp [mRange, cR]
+  have : mRange.step 0 (charClass 'r') = 1 := by simp [mRange, mRangeB, cR]
   rw [this]
   exact accepts_absorbing mRange 1 (by decide) rfl (fun c => rfl) _
 
@@ -198,15 +198,15 @@ def digitBits : Nat := classBits "0123456789".toList
 def cMinus : Nat := charClass '-'
 def cSpace : Nat := charClass ' '
 
-def mTdDays : Img :=
+def mTdDaysB (digitBits cMinus cSpace : Nat) : Img :=
   ⟨4, fun q c =>
       if q = 0 then (if c = cMinus then 1 else if Nat.testBit digitBits c then 2 else 4)
       else if q = 1 then (if Nat.testBit digitBits c then 2 else 4)
       else if q = 2 then (if Nat.testBit digitBits c then 2 else if c = cSpace then 3 else 4)
       else q,
     fun q => q == 3⟩
+def mTdDays : Img := mTdDaysB digitBits cMinus cSpace
 
-set_option profiler true in
 theorem tdDays_cert : certOK mTdDays 0 (computeInv mTdDays) = true := by decide +kernel
 
 theorem digit_cases (c : Char) (h : c.isDigit = true) : c ∈ "0123456789".toList := by
@@ -228,11 +228,11 @@ theorem tdDays_step_digit (q : Nat) (hq : q = 0 ∨ q = 1 ∨ q = 2) (c : Nat) (
     mTdDays.step q c = 2 := by
   have hne : c ≠ cMinus := by
     intro e; rw [e, tdDays_facts.1] at h; cases h
-  rcases hq with rfl | rfl | rfl <;> simp [mTdDays, h, hne]
+  rcases hq with rfl | rfl | rfl <;> simp [mTdDays, mTdDaysB, h, hne]
 
-theorem tdDays_step_minus : mTdDays.step 0 cMinus = 1 := by simp [mTdDays]
+theorem tdDays_step_minus : mTdDays.step 0 cMinus = 1 := by simp [mTdDays, mTdDaysB]
 theorem tdDays_step_space : mTdDays.step 2 cSpace = 3 := by
-  simp [mTdDays, tdDays_facts.2]
+  simp [mTdDays, mTdDaysB, tdDays_facts.2]
 
 theorem tdDays_accepts (d : Int) (rest : List Char) : mTdDays.accepts 0 (classes (tdDayPart d ++ rest)) = true := by
   -- from state 2: the remaining digits, the blank, anything
@@ -274,15 +274,15 @@ theorem tdDays_accepts (d : Int) (rest : List Char) : mTdDays.accepts 0 (classes
 
 def hexBits : Nat := classBits hexCharsL
 
-def mUuid : Img :=
+def mUuidB (hexBits cMinus : Nat) : Img :=
   ⟨4, fun q c =>
       if q = 0 then (if Nat.testBit hexBits c then 1 else 4)
       else if q = 1 then (if Nat.testBit hexBits c then 1 else if c = cMinus then 2 else 4)
       else if q = 2 then (if Nat.testBit hexBits c then 2 else if c = cMinus then 3 else 4)
       else q,
     fun q => q == 3⟩
+def mUuid : Img := mUuidB hexBits cMinus
 
-set_option profiler true in
 theorem uuid_cert : certOK mUuid 0 (computeInv mUuid) = true := by decide +kernel
 
 theorem uuid_facts : Nat.testBit hexBits cMinus = false := by decide +kernel
@@ -291,11 +291,11 @@ theorem hex_class (c : Char) (h : c ∈ hexCharsL) : Nat.testBit hexBits (charCl
   classBits_mem _ c h
 
 theorem uuid_step_hex01 (q : Nat) (hq : q = 0 ∨ q = 1) (c : Nat) (h : Nat.testBit hexBits c = true) : mUuid.step q c = 1 := by
-  rcases hq with rfl | rfl <;> simp [mUuid, h]
+  rcases hq with rfl | rfl <;> simp [mUuid, mUuidB, h]
 theorem uuid_step_hex2 (c : Nat) (h : Nat.testBit hexBits c = true) : mUuid.step 2 c = 2 := by
-  simp [mUuid, h]
-theorem uuid_step_minus1 : mUuid.step 1 cMinus = 2 := by simp [mUuid, uuid_facts]
-theorem uuid_step_minus2 : mUuid.step 2 cMinus = 3 := by simp [mUuid, uuid_facts]
+  simp [mUuid, mUuidB, h]
+theorem uuid_step_minus1 : mUuid.step 1 cMinus = 2 := by simp [mUuid, mUuidB, uuid_facts]
+theorem uuid_step_minus2 : mUuid.step 2 cMinus = 3 := by simp [mUuid, mUuidB, uuid_facts]
 
 theorem uuid_accepts (n : Nat) : mUuid.accepts 0 (classes (uuidStr n)) = true := by
   have hm : charClass '-' = cMinus := rfl
@@ -322,14 +322,14 @@ theorem uuid_accepts (n : Nat) : mUuid.accepts 0 (classes (uuidStr n)) = true :=
 def b64Bits : Nat := classBits b64Alphabet
 def cEq : Nat := charClass '='
 
-def mB64Pad : Img :=
+def mB64PadB (b64Bits cEq : Nat) : Img :=
   ⟨3, fun q c =>
       if q = 0 then (if Nat.testBit b64Bits c then 1 else 3)
       else if q = 1 then (if c = cEq then 2 else if Nat.testBit b64Bits c then 1 else 3)
       else (if c = cEq then 2 else 3),
     fun q => q == 2⟩
+def mB64Pad : Img := mB64PadB b64Bits cEq
 
-set_option profiler true in
 theorem b64Pad_cert : certOK mB64Pad 0 (computeInv mB64Pad) = true := by decide +kernel
 
 theorem b64_facts : Nat.testBit b64Bits cEq = false := by decide +kernel
@@ -342,10 +342,10 @@ theorem b64_class {n : Nat} (h : n < 64) : Nat.testBit b64Bits (charClass (b64Ch
 theorem b64_step_data (q : Nat) (hq : q = 0 ∨ q = 1) (c : Nat) (h : Nat.testBit b64Bits c = true) : mB64Pad.step q c = 1 := by
   have hne : c ≠ cEq := by
     intro e; rw [e, b64_facts] at h; cases h
-  rcases hq with rfl | rfl <;> simp [mB64Pad, h, hne]
+  rcases hq with rfl | rfl <;> simp [mB64Pad, mB64PadB, h, hne]
 
 theorem b64_step_pad (q : Nat) (hq : q = 1 ∨ q = 2) : mB64Pad.step q cEq = 2 := by
-  rcases hq with rfl | rfl <;> simp [mB64Pad]
+  rcases hq with rfl | rfl <;> simp [mB64Pad, mB64PadB]
 
 /-- one alphabet character read in state 0 or 1 leads to state 1 -/
 theorem b64_data_step {n : Nat} (h : n < 64) (q : Nat) (hq : q = 0 ∨ q = 1) (w : List Nat) :
